@@ -222,6 +222,24 @@ def regenerate(repo, outdir):
     # D6: fetch_all_keys inserts the user: prefix after a leading '~';  D15: from_jwk_any has an "oct" branch
     flags["keyFilterPrefixAfterTilde"] = has("src/store.rs", r"fn fetch_all_keys[^#]*?starts_with\('~'\)[^#]*?replace_range\(\s*at\.\.at\s*,\s*\"user:\"\)")
     flags["jwkOctImport"] = has("askar-crypto/src/alg/any.rs", r"fn from_jwk_any[^#]*?\(\s*\"oct\"")
+    # D32: PassKey::as_ref keeps None (does not go through Deref, which yields "" for None)
+    flags["passKeyAsRefKeepsNone"] = has("askar-storage/src/protect/pass_key.rs", r"fn as_ref\(&self\)\s*->\s*PassKey<'_>\s*\{[^}]*self\.0\s*\.as_ref\(\)\s*\.map\(")
+    # D33: both FFI order_by decoders store the Unsupported error (set_last_error) instead of returning the bare code
+    ffi_store = read(repo, "src/ffi/store.rs")
+    n_order = len(re.findall(r"Some\(_\)\s*=>\s*\{?\s*return\s+(?:set_last_error\(|ErrorCode::Unsupported)", ffi_store))
+    n_rec = len(re.findall(r"Some\(_\)\s*=>\s*\{?\s*return\s+set_last_error\(", ffi_store))
+    if n_order < 2:
+        raise RuntimeError("src/ffi/store.rs: the two order_by decoders were not found in the expected shape")
+    flags["ffiOrderByErrorRecorded"] = n_rec == n_order
+    # D34: askar_get_current_error checks its out pointer before writing through it
+    flags["ffiCurrentErrorChecksOut"] = has("src/ffi/error.rs", r"fn askar_get_current_error\([^{]*\{[^}]*error_json_p\.is_null\(\)[^}]*return")
+    # D35: the SQLite backend's two cache-filling paths insert only if no profile was removed since they read the counter
+    sq = read(repo, "askar-storage/src/backend/sqlite/mod.rs")
+    flags["keyCacheRemovalGuard"] = (
+        has("askar-storage/src/protect/mod.rs", r"fn add_profile_unless_removed\([^#]*?write\(\)\.await[^#]*?!=\s*removals[^#]*?return false")
+        and has("askar-storage/src/protect/mod.rs", r"fn remove_profile\(&self[^#]*?write\(\)\.await[^#]*?fetch_add\(")
+        and len(re.findall(r"removal_count\(\)", sq)) >= 2 and len(re.findall(r"add_profile_unless_removed\(", sq)) >= 2
+        and not re.search(r"\.add_profile\(", sq))
     fl = ["/- GENERATED by tools/extract.py from /repo on every run — do not edit. -/", "namespace Askar.Generated.Flags", ""]
     for k, v in flags.items():
         fl.append(f"def {k} : Bool := {'true' if v else 'false'}")
